@@ -1,3 +1,5 @@
+//go:build !skip_c11
+
 package main
 
 import (
